@@ -43,6 +43,11 @@ def body_fixed(rnd, kind):
                                "els": [E(B("le", IT("i"), F("a")))]}])]
     if kind == "sum":
         return [E(B(rnd.choice(["eq", "le", "ge"]), {"k": "sum", "l": "l"}, rnd.choice([lit(rnd.randrange(7)), F("a")])))]
+    if kind == "prod":
+        return [E(B(rnd.choice(["eq", "le", "ge", "ne"]), {"k": "prod", "l": "l"}, rnd.choice([lit(rnd.choice([0, 1, 2, 4, 6])), F("a")])))]
+    if kind == "prod_fe":
+        return [E(B(rnd.choice(["eq", "le"]), {"k": "prod", "l": "l"}, lit(rnd.choice([2, 4, 6, 9])))),
+                FE("l", "i", [E(B("gt", SUB("l", IX("i")), lit(0)))], it=False, idx=True)]
     if kind == "uniq":
         return [{"k": "uniq", "args": [{"k": "lst", "p": "l"}]}]
     if kind == "uniq_mixed":
@@ -56,7 +61,7 @@ def body_fixed(rnd, kind):
     raise ValueError(kind)
 
 
-FIXED_KINDS = ["fe_it", "fe_idx", "fe_both", "fe_sorted", "fe_guard", "sum", "uniq", "uniq_mixed", "member", "index", "nl_member"]
+FIXED_KINDS = ["fe_it", "fe_idx", "fe_both", "fe_sorted", "fe_guard", "sum", "uniq", "uniq_mixed", "member", "index", "nl_member", "prod", "prod_fe"]
 
 
 def family_fixed(tier, seed, n=None):
